@@ -51,10 +51,10 @@ type vc20Fixture struct {
 	baseConf *configuration
 	baseGeo  *geoip.File
 
-	enums  map[string][]string
-	xrefs  []string
+	enums map[string][]string
+	xrefs []string
 
-	// siblings lists, per mapping, the indexes of count-kind fields that are
+	// siblings lists, per mapping, the indexes of integer fields that are
 	// direct children of the same mapping (threshold pairs).
 	siblings [][]int
 
@@ -281,7 +281,7 @@ func vc20NewFixture(tb testing.TB) (fx *vc20Fixture) {
 			}
 		}
 
-		if f.kind == vc20KindCount {
+		if f.kind == vc20KindCount || f.kind == vc20KindPort || f.kind == vc20KindPrefixLen {
 			if _, isKey := f.path[len(f.path)-1].(string); isKey {
 				parent := vc20PathName(f.path[:len(f.path)-1])
 				if _, ok := byParent[parent]; !ok {
